@@ -628,7 +628,8 @@ def gen_cases(rng, tier):
             k = rng.randrange(6)
             msg = ("id-" + "".join(rng.choice(string.hexdigits) for _ in range(32)) if k < 2 else gen_text(rng) if k < 4
                    else gen_long(rng) if k == 4 else rng.choice(["", "a\nb", "x y", "é", "&ID=evil", "a=b&RelayState=evil"]))
-        loc = gen_dest(rng) if rng.random() < 0.4 else rng.choice(["https://idp.c14.example/uri", "http://localhost:8088/id",
+        # every destination shape of the other URL bindings: no / empty / existing query, trailing `?` `&`, fragment
+        loc = gen_dest(rng) if rng.random() < 0.7 else rng.choice(["https://idp.c14.example/uri", "http://localhost:8088/id",
                                                                    "https://exämple.c14.example/söö", "/relative/path", ""])
         via = "apply_binding" if typ in ("SAMLRequest", "SAMLResponse") and rng.random() < 0.4 else "use_http_uri"
         yield {"op": "uri", "typ": typ, "msg": msg, "loc": loc, "rs": gen_relay(rng), "via": via}
@@ -1375,6 +1376,9 @@ def finding_key(case, impl, lean):
             return "C14/redirect-destination-fragment"
         if "?" in base and not "".join(ch for ch in own if ch not in "\t\r\n"):
             return "C14/redirect-destination-empty-query"
+    if case["op"] == "uri" and impl.get("r") == "request" and ("?" in case["loc"] or "#" in case["loc"]):
+        # repaired by f3123de0 (use_http_uri glued "?" without add_query): named, not a known finding
+        return "C14/uri-destination-existing-query"
     if case["op"] == "soap" and not case.get("as_object") and case.get("tree") is not None:
         # repaired by d02e146f: named so that a regression surfaces under its old name (not a known finding)
         if PREFIX_TEXT in _soap_spliced(case["thingy"]):
